@@ -10,7 +10,7 @@ package nut14
 //@   ensures @cashuerr [C20] r0 != nil ==> iscashu(r0) && !internalerr(r0)
 //@   tags C13
 //@   safety C06 C13
-//@   modifies hvs.last, hvs.calls, hvs.fails, clk.now
+//@   modifies hvs.last, hvs.calls, hvs.fails, clk.now, clk.t
 //@   assumes r0 == htlc.verdict(proof, proofSecret, clk.now)
 //@   calls nut11.HasValidSignatures asserts @handed [C13] bytes(hash) == sha256(bytesOf(proof.Secret)) && signatures == htlcWitness.Signatures && ((expired(p2pkTags) && Nsigs == 1 && pubkeys == p2pkTags.Refund && len(p2pkTags.Refund) > 0) || (!expired(p2pkTags) && Nsigs == p2pkTags.NSigs && Nsigs > 0 && pubkeys == p2pkTags.Pubkeys))
 //@   ensures @preimage [C13] r0 == nil && !expired(p2pkTags) ==> hexok(htlcWitness.Preimage) && len(proofSecret.Data.Data) == 64 && hexenc(sha256(hexdec(htlcWitness.Preimage))) == proofSecret.Data.Data
